@@ -887,6 +887,8 @@ def run(check):
     check.guarded("APPLY-ARGS", rule_apply_args)
     check.guarded("TRAV-COVER", lambda c: T.run_cover(c, "TRAV-COVER", "OptChainVisitor", {T.EXPR}, [excl_optchain_lowered, excl_optchain_operands], {"visit_mut_expr"}))
     check.guarded("OPTCHAIN-SPINE", X.rule_optchain_spine)
+    # a statement or an operand taken out of the tree before the visitors get to it is not instrumented
+    check.guarded("INPUT-UNTOUCHED", X.rule_input_untouched)
     check.guarded("DEFAULT-VISITOR", lambda c: T.rule_default_visitor(c, "VisitMut", {T.EXPR, T.BLOCK}))
     check.guarded("TRAV-DISPATCH", rule_dispatch)
     check.guarded("BLOCK-DRIVER", rule_block_driver)
